@@ -15,7 +15,7 @@ def run(d):
         if r.returncode:
             return name, props, {'PATCHFAIL': 'x'}
         for p in props:
-            env = dict(os.environ, VERIF_EVIDENCE_DIR=t + '/ev', VERIF_QUIET='1')
+            env = dict(os.environ, VERIF_EVIDENCE_DIR=t + '/ev', VERIF_QUIET='1', VERIF_JOBS='1')
             r = subprocess.run(['/venv/bin/python', '/verif/sa/check.py', p, '--repo', t], capture_output=True, text=True, env=env)
             out = r.stdout + r.stderr
             res[p] = 'V' if 'VIOLATION' in out else 'E2' if 'ANALYSIS-ERROR' in out else 'silent'
